@@ -82,11 +82,13 @@ RUNS = (
     # confidence assignment followed by the roll-up tool working in place (src_dir == dest_dir, the tool's default):
     # results of an earlier roll-up in that directory are leftovers, not inputs
     + [dict(kind="confroll", table="T1"), dict(kind="confroll", table="T2")]
+    # confidence assignment with protein-level results (one more level file: the picked-protein table)
+    + [dict(kind="confprot")]
 )
 
 
 # quick tier: a representative subset of the configurations (same kinds, both tables, both chunkings, one Parquet)
-QUICK_RUNS = [0, 2, 5, 7, 8, 10, 11, 12, 13, 14]
+QUICK_RUNS = [0, 2, 5, 7, 8, 10, 11, 12, 13, 14, 15]
 
 
 class Env:
@@ -134,6 +136,19 @@ class Env:
                 ds = make_dataset(df, self.fixed / f"{run['table']}{ext}", features=["f_key", "f2"], spectrum=self.spec, write=False)
                 fn = lambda: assign_confidence([ds], max_workers=1, scores=[df["f_key"].values.astype(float)], descs=[True],  # noqa: E731
                                                dest_dir=self.out, prefixes=[run["prefix"]], decoys=True)
+            elif run["kind"] == "confprot":
+                import mokapot
+                from checks import c08_determinism as c8
+
+                pdf = c8.table()
+                pds = make_dataset(pdf, self.fixed / "P.pin", features=["f_key", "f2", "f3"], spectrum=["ScanNr", "ExpMass"],
+                                   write=not (self.fixed / "P.pin").exists())
+                fa = self.fixed / "P.fasta"
+                if not fa.exists():
+                    fa.write_text(c8.fasta_text(True))
+                prot = mokapot.read_fasta(fa, missed_cleavages=0, min_length=6)
+                fn = lambda: assign_confidence([pds], max_workers=1, scores=[pdf["f_key"].values.astype(float)], descs=[True],  # noqa: E731
+                                               dest_dir=self.out, prefixes=["pr"], decoys=True, proteins=prot, rng=1)
             elif run["kind"] == "confroll":
                 df = self.tabs[run["table"]]
                 ds = make_dataset(df, self.fixed / f"{run['table']}.pin", features=["f_key", "f2"], spectrum=self.spec, write=False)
@@ -162,6 +177,8 @@ class Env:
     def result_names(self, run):
         if run["kind"] in ("rollup", "confroll"):
             return None
+        if run["kind"] == "confprot":
+            return {f"0:pr.{td}.{lvl}" for td in ("targets", "decoys") for lvl in ("psms", "peptides", "proteins")}
         pfx = (run["prefix"] + ".") if run.get("prefix") else ""
         return {f"0:{pfx}{td}.{lvl}" for td in ("targets", "decoys") for lvl in ("psms", "peptides")}
 
